@@ -180,6 +180,28 @@ def run(
     return res
 
 
+def apalache(module, args, workdir, timeout=900):
+    """run apalache-mc check on spec/<module>.tla; returns (outcome, seconds): outcome in {"NoError", "Error", "unavailable"}"""
+    exe = shutil.which("apalache-mc")
+    if not exe:
+        return "unavailable", 0.0
+    out = os.path.join(workdir, "apalache-%d" % os.getpid())
+    t0 = time.time()
+    try:
+        p = subprocess.run([exe, "check"] + list(args) + ["--out-dir=" + out, os.path.join(SPEC, module + ".tla")], cwd=workdir,
+                           capture_output=True, text=True, timeout=timeout)
+        txt = p.stdout + p.stderr
+    except subprocess.TimeoutExpired:
+        shutil.rmtree(out, ignore_errors=True)
+        return "unavailable", time.time() - t0
+    shutil.rmtree(out, ignore_errors=True)
+    if "The outcome is: NoError" in txt:
+        return "NoError", time.time() - t0
+    if "The outcome is: Error" in txt:
+        return "Error", time.time() - t0
+    return "unavailable", time.time() - t0
+
+
 def sany(module):
     cmd = ["java", "-cp", JAR, "tla2sany.SANY", os.path.join(SPEC, module + ".tla")]
     p = subprocess.run(cmd, cwd=SPEC, capture_output=True, text=True)
